@@ -499,6 +499,14 @@ pub struct Layout {
     /// flag says (§18.8.45). The cell-style xfs then also get date / elapsed formats. Private stream, `plain()` = 0.
     /// (C10, seeded C10-m12)
     pub pct_xf_apply_flag: u8,
+    /// chance, number cell by number cell, that the text of its `<v>` is written in several pieces: split by a comment,
+    /// by a processing instruction, or with one piece in a CDATA section (`<v>45000<!-- c -->.5</v>`,
+    /// `<v>4<![CDATA[5000.5]]></v>`). The value of the element is the concatenation of its character data. Private
+    /// stream, `plain()` = 0. (C10, seeded C10-m15)
+    pub pct_v_split: u8,
+    /// let `pct_v_split` also use CDATA sections for the pieces (`false` in `plain()` AND in `random()`: the worksheet
+    /// models of C01 have no CDATA event; C10 and C19 switch it on)
+    pub v_split_cdata: bool,
     /// row styles are drawn from `0..row_style_count`; 0 = the length of the book's `cellXfs` (set by `build`)
     pub row_style_count: u32,
     /// where `xl/workbook.xml` declares the relationships-namespace prefix (`rel_prefix`) that `<sheet>` uses.
@@ -551,6 +559,8 @@ impl Layout {
             pct_styles_noise: 0,
             pct_row_style: 0,
             pct_xf_apply_flag: 0,
+            pct_v_split: 0,
+            v_split_cdata: false,
             row_style_count: 0,
             rel_decl: RelDecl::Workbook,
             shuffle_rows: false,
@@ -609,6 +619,8 @@ impl Layout {
             pct_spans: 0,
             // (drawn last from `own`: the knobs above keep the values they had before this one existed)
             pct_xf_apply_flag: *own.pick(&[0u8, 0, 50, 100]),
+            pct_v_split: *own.pick(&[0u8, 0, 30, 100]),
+            v_split_cdata: false,
         }
     }
     /// short description for counters / failure signatures
@@ -743,6 +755,8 @@ pub fn render_sheet(sheet: &XlsxSheet, l: &Layout, rng: &mut Rng, sst: &mut Sst)
     let mut arng = attr_rng(l, &sheet.name);
     // row-style knob: its own stream
     let mut rsrng = attr_rng(l, &format!("{}#rowstyle", sheet.name));
+    // <v>-splitting knob: its own stream
+    let mut vrng = attr_rng(l, &format!("{}#vsplit", sheet.name));
     let mut sprng = attr_rng(l, &format!("{}#spans", sheet.name));
     let (nk, nv) = l.ns_attr();
     let mut root_attrs = vec![(nk, nv)];
@@ -891,7 +905,7 @@ pub fn render_sheet(sheet: &XlsxSheet, l: &Layout, rng: &mut Rng, sst: &mut Sst)
             if let Some(s) = cell.style {
                 attrs.push(("s".into(), s.to_string()));
             }
-            render_cell(cell, l, rng, &mut arng, sst, attrs, &mut out);
+            render_cell(cell, l, rng, &mut arng, &mut vrng, sst, attrs, &mut out);
             col_index = c + 1;
         }
         ws(l, rng, &mut out);
@@ -916,7 +930,43 @@ pub fn render_sheet(sheet: &XlsxSheet, l: &Layout, rng: &mut Rng, sst: &mut Sst)
     out
 }
 
-fn render_cell(cell: &XCell, l: &Layout, rng: &mut Rng, arng: &mut Rng, sst: &mut Sst, mut attrs: Vec<(String, String)>, out: &mut Vec<Ev>) {
+fn render_cell(cell: &XCell, l: &Layout, rng: &mut Rng, arng: &mut Rng, vrng: &mut Rng, sst: &mut Sst, mut attrs: Vec<(String, String)>, out: &mut Vec<Ev>) {
+    // the character data of a number's <v>, possibly in pieces
+    let v_content = |val: &str, vrng: &mut Rng, out: &mut Vec<Ev>| {
+        let cs: Vec<char> = val.chars().collect();
+        if cs.len() >= 2 && roll(vrng, l.pct_v_split) {
+            let k = vrng.range(1, cs.len() as u64 - 1) as usize;
+            let a: String = cs[..k].iter().collect();
+            let b: String = cs[k..].iter().collect();
+            match if l.v_split_cdata { vrng.below(5) } else { vrng.below(2) } {
+                0 => {
+                    out.push(text(&a));
+                    out.push(Ev::Other("<!-- c -->".into()));
+                    out.push(text(&b));
+                }
+                1 => {
+                    out.push(text(&a));
+                    out.push(Ev::Other("<?keep together?>".into()));
+                    out.push(text(&b));
+                }
+                2 => {
+                    out.push(Ev::CData(a));
+                    out.push(text(&b));
+                }
+                3 => {
+                    out.push(text(&a));
+                    out.push(Ev::CData(b));
+                }
+                _ => {
+                    out.push(Ev::CData(a));
+                    out.push(Ev::Other("<!---->".into()));
+                    out.push(Ev::CData(b));
+                }
+            }
+        } else {
+            out.push(text(val));
+        }
+    };
     let c = l.q("c");
     let v = l.q("v");
     let f_events = |out: &mut Vec<Ev>| {
@@ -936,7 +986,7 @@ fn render_cell(cell: &XCell, l: &Layout, rng: &mut Rng, arng: &mut Rng, sst: &mu
             out.push(end(&l.q("f")));
         }
     };
-    let simple = |t: Option<&str>, val: &str, mut attrs: Vec<(String, String)>, arng: &mut Rng, out: &mut Vec<Ev>| {
+    let simple_v = |t: Option<&str>, val: &str, mut attrs: Vec<(String, String)>, arng: &mut Rng, num: Option<&mut Rng>, out: &mut Vec<Ev>| {
         if let Some(t) = t {
             attrs.push(("t".into(), t.into()));
         }
@@ -945,14 +995,23 @@ fn render_cell(cell: &XCell, l: &Layout, rng: &mut Rng, arng: &mut Rng, sst: &mu
             f_events(out);
         }
         out.push(start(&v, &[]));
-        if !val.is_empty() {
-            out.push(text(val));
+        match num {
+            // a number: its text may be written in pieces
+            Some(vrng) if !val.is_empty() => v_content(val, vrng, out),
+            _ => {
+                if !val.is_empty() {
+                    out.push(text(val));
+                }
+            }
         }
         out.push(end(&v));
         if !l.formula_first {
             f_events(out);
         }
         out.push(end(&c));
+    };
+    let simple = |t: Option<&str>, val: &str, attrs: Vec<(String, String)>, arng: &mut Rng, out: &mut Vec<Ev>| {
+        simple_v(t, val, attrs, arng, None, out)
     };
     let shared = |s: &str, attrs: Vec<(String, String)>, rng: &mut Rng, arng: &mut Rng, sst: &mut Sst, out: &mut Vec<Ev>| {
         let idx = sst.index_of(s, roll(rng, l.pct_sst_dedupe));
@@ -975,7 +1034,7 @@ fn render_cell(cell: &XCell, l: &Layout, rng: &mut Rng, arng: &mut Rng, sst: &mu
         }
         XVal::Num(t) => {
             let tn = roll(rng, l.pct_t_n) || (cell.style.is_some() && roll(arng, l.pct_t_n_styled));
-            simple(if tn { Some("n") } else { None }, t, attrs, arng, out)
+            simple_v(if tn { Some("n") } else { None }, t, attrs, arng, Some(vrng), out)
         }
         XVal::SharedStr(s) => {
             if roll(rng, l.pct_swap_string_store) {
